@@ -71,6 +71,8 @@ def main():
     from .run import install_api_time_limits
     install_api_time_limits(600)
     rec = json.load(open(sys.argv[1]))
+    if rec.get("property") in ("C02", "C03", "C05", "C09", "C10", "C13") and hasattr(sys, "set_int_max_str_digits"):
+        sys.set_int_max_str_digits(0)
     try:
         res = replay_e3(rec) if rec.get("kind") == "e3" else replay_e1(rec)
     except Exception as e:
